@@ -1,2 +1,17 @@
 // Hook H2 (ipa-core/src/helpers/buffers/mod.rs): access to CircularBuf, OrderingSender,
 // UnorderedReceiver internals.
+
+#[cfg(feature = "shuttle")]
+mod c14_sched {
+    include!(concat!(env!("IPA_VERIF_DIR"), "/c14_sched.rs"));
+}
+
+#[cfg(not(feature = "shuttle"))]
+mod c14_circ {
+    include!(concat!(env!("IPA_VERIF_DIR"), "/c14_circ.rs"));
+}
+
+#[cfg(not(feature = "shuttle"))]
+mod c14_recv {
+    include!(concat!(env!("IPA_VERIF_DIR"), "/c14_recv.rs"));
+}
